@@ -138,7 +138,19 @@ func vRWMutexHeldNative(m interface {
 // loops' bodies are invoked explicitly by the harnesses.
 var vGoCalls int
 
-func vGo(f func()) { vGoCalls++ }
+func vGo(f func()) {
+	vGoCalls++
+	if vGoLive {
+		vQueueGo(f)
+	}
+}
+
+// vGoLive (set by harnesses that drive the public Client/Server entry points): the loops
+// are real goroutines natively; in the engine they run whenever the harness goroutine
+// cannot proceed, each until it returns or parks (see runQueued in /verif/engine).
+var vGoLive bool
+
+func vQueueGo(f func()) { go f() }
 
 // vRealtime is set for native replays of violations only: timer durations are then
 // measured on the wall clock. In ordinary native validation runs the expected duration is
